@@ -40,7 +40,7 @@ def run(tier, seed):
     sdir = vlib.scratch("C18")
     try:
         common.proof_part(rep, "Properties_C18")
-        binary, err = vlib.build_harness("h_algo")
+        binary, err = vlib.build_harness("h_algo_cnt", sources=["h_algo.cpp"], defines=["FAMILY_CNT"])
         if not binary:
             rep.violation(dict(kind="build", clause="h_algo", has_input=True), "harness h_algo does not compile: " + err[-600:], dict(stderr=err))
             return rep.finish()
